@@ -43,26 +43,29 @@ RL_MC_WITNESS = {
     "quick": ["Block", "Send:ok", "Send:err", "Recv:ok", "Recv:err", "Recv:none", "Ack:ok", "Ack:undo", "Timeout:undo",
               "Resolve:undo", "Add:ok", "Add:err", "Update:ok", "Remove:ok", "Reset:ok", "EpochReset",
               "EpochResetWhilePending", "AdminWhilePending", "UndoOutsideWindow", "ExactQuota", "QuotaRefused",
-              "RecvRefusedByQuota"],
+              "RecvRefusedByQuota",
+              "Wl:SendBeyondQuota", "Wl:SendNotCounted", "Wl:UndoLeavesFlow", "Wl:Del", "Wl:OtherPairCounted"],
 }
-RL_MC_WITNESS["thorough"] = RL_MC_WITNESS["quick"] + ["Resolve:ok", "NetFlowOffsets"]
+RL_MC_WITNESS["thorough"] = RL_MC_WITNESS["quick"] + ["Resolve:ok", "NetFlowOffsets", "Wl:RecvNotCounted", "Bl:SendRefused",
+                                                      "Bl:RecvRefused", "Bl:UndoWhileBlacklisted", "Bl:Del"]
 
 
 def rl_mc_constants(tier):
     if tier == "quick":
         return dict(HOUR=4, PATHS={"N/AB"}, AMTS={40, 41}, QSS={2}, QRS={2}, DURS={1}, DTS={1}, BDTS={3},
                     FATES_OUT={"ok", "err", "to"}, FATES_IN={"ok", "err", "ferr"}, SEND_CH={"AB"}, MaxPk=2, MaxT=7,
-                    SUPN=4000, SUPV=1000)
+                    WS={0, 1}, WLPAIRS={"uA>rB"}, BLS=set(), SUPN=4000, SUPV=1000)
     return dict(HOUR=4, PATHS={"N/AB", "V/AB"}, AMTS={40, 41}, QSS={2}, QRS={2}, DURS={1, 2}, DTS={1}, BDTS={3},
                 FATES_OUT={"ok", "err", "to"}, FATES_IN={"ok", "err", "fok", "ferr"}, SEND_CH={"AB"}, MaxPk=3, MaxT=7,
-                SUPN=4000, SUPV=1000)
+                WS={0, 1}, WLPAIRS={"uA>rB", "uA>yB", "uB>rA"}, BLS={"N"}, SUPN=4000, SUPV=1000)
 
 
 def rl_sched_constants(tier, depth, outdir, excl):
     c = dict(HOUR=RL_HOUR, PATHS={"N/AB", "V/AB", "V/AC"}, AMTS={15, 40, 41, 100}, QSS={0, 1, 2, 10, 100},
              QRS={0, 1, 2, 10, 100}, DURS={1, 2}, DTS={1, 2}, BDTS={1, 5, 12},
              FATES_OUT={"ok", "err", "to"}, FATES_IN={"ok", "err", "fok", "ferr", "fto"}, SEND_CH={"AB"},
-             MaxPk=1000, MaxT=1000000, Depth=depth, OutDir=outdir, EXCL_KF=bool(excl), MACRO_PCT=35)
+             MaxPk=1000, MaxT=1000000, Depth=depth, OutDir=outdir, EXCL_KF=bool(excl), MACRO_PCT=45,
+             WS={0, 1}, WLPAIRS={"uA>rB", "uA>yB", "uB>rA", "uB>yA", "rB>uA", "uB>rB"}, BLS={"N", "V"}, QPCTS={1, 3, 10, 25, 50})
     c.update(RL_INIT)
     return c
 
@@ -154,6 +157,114 @@ def rl_boundary_schedules():
     ]
 
 
+def rl_list_schedules():
+    """Canonical schedules for the whitelist / blacklist class (always executed): a counted transfer and a whitelisted one
+    (address pair snd>rcv; w = 1 names the second receiver account) that fails in the same window -- send side with a
+    timeout and with an error acknowledgement, receive side with failed forwards (async ack) --, a whitelisted transfer
+    beyond the quota, removal from the whitelist, refused transfers of a blacklisted denomination and the refund of a
+    counted packet while its denomination is blacklisted, a packet sent before its path got a limit."""
+    ns, nr, nac = RL_INIT["NS_AB"], RL_INIT["NR"], RL_INIT["NS_AC"]
+    add = {"a": "Add", "dt": 1, "d": "N", "ch": "AB", "qs": 10, "qr": 10, "dur": 1}
+
+    def snd(amt, fate, w=0, d="N"):
+        return {"a": "Send", "dt": 1, "d": d, "ch": "AB", "amt": amt, "fate": fate, "w": w}
+
+    def rcv(amt, fate, w=0, d="N"):
+        return {"a": "Recv", "dt": 1, "d": d, "ch": "AB", "amt": amt, "fate": fate, "w": w}
+
+    def wl(name, pair):
+        return {"a": name, "dt": 1, "pair": pair}
+
+    def bl(name, d):
+        return {"a": name, "dt": 1, "d": d}
+    return [
+        {"id": "RL-w1", "kind": "RL", "acts": [
+            add, wl("WlAdd", "uA>rB"), snd(100, "ok"), snd(80, "to", 1),
+            {"a": "Timeout", "dt": 1, "pkt": _pk("AB", ns + 1, "N", 80, "to")},        # never counted: outflow stays 100
+            snd(300, "ok"), snd(1, "ok"),                                               # 400 = the quota, one above refused
+            snd(500, "ok", 1),                                                          # whitelisted: beyond the quota
+            {"a": "Ack", "dt": 1, "pkt": _pk("AB", ns, "N", 100, "ok")}]},
+        {"id": "RL-w2", "kind": "RL", "acts": [
+            add, wl("WlAdd", "uA>yB"), snd(100, "to"), snd(80, "err", 1),
+            {"a": "Ack", "dt": 1, "pkt": _pk("AB", ns + 1, "N", 80, "err")},           # never counted
+            wl("WlDel", "uA>yB"), snd(70, "err", 1),                                    # counted again
+            {"a": "Ack", "dt": 1, "pkt": _pk("AB", ns + 2, "N", 70, "err")},
+            {"a": "Timeout", "dt": 1, "pkt": _pk("AB", ns, "N", 100, "to")}]},
+        {"id": "RL-w3", "kind": "RL", "acts": [
+            add, wl("WlAdd", "uB>rA"), rcv(100, "ok"), rcv(80, "ferr", 1),
+            {"a": "Resolve", "dt": 1, "pkt": _pk("AB", nr + 1, "N", 80, "ferr", "in", nac)},
+            rcv(60, "fto", 1),
+            {"a": "Resolve", "dt": 1, "pkt": _pk("AB", nr + 2, "N", 60, "fto", "in", nac + 1)},
+            rcv(300, "ok"), rcv(1, "ok"), rcv(500, "ok", 1)]},
+        # pairs that must not match (reversed, same sender only) and a voucher path
+        {"id": "RL-w4", "kind": "RL", "acts": [
+            {"a": "Add", "dt": 1, "d": "V", "ch": "AB", "qs": 10, "qr": 10, "dur": 1},
+            wl("WlAdd", "rB>uA"), wl("WlAdd", "uB>rB"), wl("WlAdd", "uA>rB"),
+            snd(40, "ok", 0, "V"), snd(30, "to", 1, "V"), rcv(20, "ok", 0, "V"), rcv(25, "ok", 1, "V"),
+            {"a": "Timeout", "dt": 1, "pkt": _pk("AB", ns + 1, "V", 30, "to")},
+            snd(80, "ok", 0, "V"), snd(1, "ok", 0, "V")]},                             # 40 + 80 - 45 = 75... below 100: accepted
+        {"id": "RL-bl1", "kind": "RL", "acts": [
+            add, snd(100, "to"), bl("BlAdd", "N"), snd(50, "ok"), rcv(50, "ok"),
+            {"a": "Timeout", "dt": 1, "pkt": _pk("AB", ns, "N", 100, "to")},           # undone while blacklisted
+            bl("BlDel", "N"), snd(400, "ok"), snd(1, "ok")]},
+        # sent / received while the path had no limit, refunded after the limit was added
+        {"id": "RL-n1", "kind": "RL", "acts": [
+            snd(100, "to"), rcv(70, "ferr"), add, snd(50, "ok"), rcv(30, "ok"),
+            {"a": "Timeout", "dt": 1, "pkt": _pk("AB", ns, "N", 100, "to")},
+            {"a": "Resolve", "dt": 1, "pkt": _pk("AB", nr, "N", 70, "ferr", "in", nac)},
+            snd(380, "ok"), snd(1, "ok")]},                                             # 50 - 30 + 380 = 400 = the quota
+    ]
+
+
+def rl_quota_schedules():
+    """Canonical schedules for the quota arithmetic (always executed): the voucher supply (1000 after the set-up) is moved
+    to values whose  value * percent / 100  has a fractional part above one half (10.6, 10.7), exactly one half with an odd
+    / even integer part (11.5, 10.5), just above / below one half (30.51, 32.49); then flows exactly at the truncated
+    threshold and exactly one unit above it: in one transfer and in two, sends, receives (net of the opposite flow) and
+    forwarded receives (quota of the forward path)."""
+    ns, nr, nac = RL_INIT["NS_AB"], RL_INIT["NR"], RL_INIT["NS_AC"]
+
+    def snd(amt, fate="ok"):
+        return {"a": "Send", "dt": 1, "d": "V", "ch": "AB", "amt": amt, "fate": fate}
+
+    def rcv(amt, fate="ok"):
+        return {"a": "Recv", "dt": 1, "d": "V", "ch": "AB", "amt": amt, "fate": fate}
+
+    def lim(name, pct, ch="AB"):
+        return {"a": name, "dt": 1, "d": "V", "ch": ch, "qs": pct, "qr": pct, "dur": 1}
+    adm = lambda name, ch="AB": {"a": name, "dt": 1, "d": "V", "ch": ch}  # noqa
+    return [
+        {"id": "RL-q1", "kind": "RL", "acts": [
+            rcv(60), lim("Add", 1),                       # channel value 1060 at 1 %: 10.6 -> 10
+            snd(10), snd(1),                              # at the threshold; one above
+            rcv(20), rcv(1),                              # net inflow 20 - 10 = 10; one above
+            adm("Reset"),                                 # channel value 1070: 10.7 -> 10
+            snd(11), snd(10, "err"),
+            {"a": "Ack", "dt": 1, "pkt": _pk("AB", ns + 1, "V", 10, "err")}, rcv(11), rcv(10)]},
+        {"id": "RL-q2", "kind": "RL", "acts": [
+            rcv(150), lim("Add", 1),                      # 1150 at 1 %: 11.5 -> 11 (odd integer part)
+            snd(11), snd(1),
+            adm("Remove"), snd(89),                       # supply 1050
+            lim("Add", 1),                                # 10.5 -> 10 (even integer part)
+            snd(10), snd(1), rcv(21), rcv(20)]},
+        {"id": "RL-q3", "kind": "RL", "acts": [
+            rcv(17), lim("Add", 3),                       # 1017 at 3 %: 30.51 -> 30
+            snd(31), snd(30, "to"), rcv(61), rcv(60),
+            {"a": "Timeout", "dt": 1, "pkt": _pk("AB", ns, "V", 30, "to")},
+            adm("Remove"), rcv(6),                        # supply 1017 + 60 + 6 = 1083
+            lim("Add", 3),                                # 32.49 -> 32
+            snd(33), snd(32), rcv(65), rcv(64)]},
+        {"id": "RL-q4", "kind": "RL", "acts": [
+            rcv(60), lim("Add", 1, "AC"),                 # forward path V/AC: 1060 at 1 %: 10.6 -> 10
+            rcv(11, "fok"), rcv(10, "fok"), rcv(1, "fok"),
+            {"a": "Resolve", "dt": 1, "pkt": _pk("AB", nr + 2, "V", 10, "fok", "in", nac)},
+            lim("Update", 25, "AC"),                      # channel value 1070 at 25 %: 267.5 -> 267 (odd)
+            rcv(268, "ferr"), rcv(267, "ferr"),
+            {"a": "Resolve", "dt": 1, "pkt": _pk("AB", nr + 5, "V", 267, "ferr", "in", nac + 1)},
+            rcv(267, "fto"), rcv(1, "fok")]},
+    ]
+
+
 def gen_rl(tier, seed, workdir, excl):
     sz = sizes(tier)
     d = vk.scratch_spec(SPEC_DIR)
@@ -174,7 +285,7 @@ def gen_rl(tier, seed, workdir, excl):
     out = out[: sz["rl_n"]]
     if len(out) < 3:
         raise vk.Infra("schedule generation (RL) produced only %d schedules" % len(out))
-    out += rl_boundary_schedules()
+    out += rl_boundary_schedules() + rl_list_schedules() + rl_quota_schedules()
     if not excl:
         out += rl_kf_schedules()
     return out
